@@ -1,11 +1,14 @@
 #!/bin/sh
 # usage: seedtest.sh <seed dir name under /tmp/seed_out or /verif/seeded> <PROP> [extra vcheck args]
+# applies the seeded change to /repo, runs the check, reverts /repo; the evidence file of the clean tree is kept
 S=$1; P=$2; shift 2
 D=/verif/seeded/$S
 [ -d "$D" ] || { mkdir -p /verif/seeded; cp -r /tmp/seed_out/$S $D; }
 git -C /repo apply $D/patch.diff || { echo "PATCH DOES NOT APPLY"; exit 9; }
+[ -f /verif/evidence/$P.json ] && cp /verif/evidence/$P.json /tmp/evidence_$P.keep
 cd /verif && ./vcheck $P "$@" > /tmp/seedtest_$S.out 2>&1; rc=$?
 git -C /repo checkout -- .
+[ -f /tmp/evidence_$P.keep ] && mv /tmp/evidence_$P.keep /verif/evidence/$P.json
 grep -c "^VIOLATION" /tmp/seedtest_$S.out | sed "s/^/violations: /"
 grep "^VIOLATION" /tmp/seedtest_$S.out | head -3 | cut -c1-220
 tail -1 /tmp/seedtest_$S.out
